@@ -6,6 +6,8 @@ import (
 	"io"
 	"net"
 	"time"
+
+	"github.com/mutagen-io/mutagen/pkg/state"
 )
 
 // C33: forwarded connections relay both directions exactly.
@@ -230,4 +232,103 @@ func VerifC33Forward() {
 		vCover("one side half-closes")
 	}
 	cancel()
+}
+
+// ---------- session statistics (controller.run / controller.forward) ----------
+
+type vtEndpoint struct {
+	name     string
+	conns    []*vtConn // connections still to hand out
+	handed   []*vtConn
+	down     chan struct{}
+	isDown   bool
+	failOpen bool
+}
+
+func (e *vtEndpoint) TransportErrors() <-chan error { return nil }
+
+func (e *vtEndpoint) Open() (net.Conn, error) {
+	if e.failOpen {
+		return nil, errors.New("model: cannot open")
+	}
+	if len(e.conns) > 0 {
+		c := e.conns[0]
+		e.conns = e.conns[1:]
+		e.handed = append(e.handed, c)
+		return c, nil
+	}
+	// no further connection arrives: wait until the endpoint is shut down
+	<-e.down
+	return nil, errors.New("model: endpoint shut down")
+}
+
+func (e *vtEndpoint) Shutdown() error {
+	if !e.isDown {
+		e.isDown = true
+		close(e.down)
+	}
+	// the transport goes away: every connection it carried dies
+	for _, c := range e.handed {
+		c.Close()
+	}
+	return nil
+}
+
+func vtUnlockQuietly(l *state.TrackingLock) { l.UnlockWithoutNotify() }
+
+var verifStubs_VerifC33Statistics = map[string]any{
+	"context.Background": vtBackground,
+	"context.WithCancel": vtWithCancel,
+	"(*github.com/mutagen-io/mutagen/pkg/state.TrackingLock).Unlock": vtUnlockQuietly,
+}
+
+// VerifC33Statistics: the real controller.run with already-connected model
+// endpoints: k connections are accepted and forwarded (each with its own
+// payload), then the session is cancelled.  When everything has come to rest:
+// the state object that was current while forwarding counted every connection
+// and every forwarded byte and its open-connection count is back to zero; the
+// controller's current state shows no open connection either.
+func VerifC33Statistics() {
+	k := vRange(1, vParam("connections", 1))
+	src := &vtEndpoint{name: "source", down: make(chan struct{})}
+	dst := &vtEndpoint{name: "destination", down: make(chan struct{})}
+	var in, out uint64
+	for i := 0; i < k; i++ {
+		a, fromA, _ := vtScript("incoming", vParam("maxchunks", 1))
+		b, fromB, _ := vtScript("outgoing", vParam("maxchunks", 1))
+		src.conns = append(src.conns, a)
+		dst.conns = append(dst.conns, b)
+		_ = fromA
+		_ = fromB
+	}
+	c := &controller{
+		stateLock: &state.TrackingLock{},
+		session:   &Session{},
+		state:     &State{SourceState: &EndpointState{}, DestinationState: &EndpointState{}},
+		done:      make(chan struct{}),
+	}
+	during := c.state
+	ctx, cancel := context.WithCancel(context.Background())
+	go c.run(ctx, src, dst)
+	go cancel()
+	<-c.done
+	// let everything come to rest: this timer fires only when every other
+	// goroutine is blocked or finished
+	time.Sleep(time.Hour)
+	for _, x := range src.handed {
+		vAssert(x.isClosed, "every accepted connection is closed when the session ends")
+		in += uint64(len(x.out))
+	}
+	for _, x := range dst.handed {
+		vAssert(x.isClosed, "every opened connection is closed when the session ends")
+		out += uint64(len(x.out))
+	}
+	vAssert(during.OpenConnections == 0, "the open-connection count returns to zero")
+	vAssert(c.state.OpenConnections == 0, "the current session state shows no open connection after forwarding ended")
+	vAssert(during.TotalConnections == uint64(len(dst.handed)), "every forwarded connection is counted")
+	vAssert(during.TotalInboundData == in && during.TotalOutboundData == out, "every forwarded byte is counted")
+	if len(dst.handed) > 0 {
+		vCover("a connection was forwarded")
+	}
+	vCover("session ended")
 }
